@@ -54,37 +54,6 @@ theorem kwFacts_elim (kw : Str) (h : KwFacts kw = true) :
     obtain ⟨⟨⟨h1, h2⟩, h3⟩, ⟨⟨h4, h5⟩, h6⟩, h7⟩ := h
     exact ⟨h1, h2, h3, k, ks, rfl, h4, h5, h6, h7⟩
 
-/-- `nm` is a spelling of the identifier `tn`: followed by a blank, the name rule reads `tn` from it -/
-def Spells (nm tn : Str) : Prop :=
-  (∀ c ∈ nm, c ≠ '\t') ∧ (∃ x xr, nm = x :: xr ∧ isWs x = false) ∧
-    ∀ (c1 : Cur) (r : Str), (skipWs c1).rest = nm ++ ' ' :: r → c1.pastEnd = false →
-      ∃ c2, name c1 = .ok tn c2 ∧ c2.rest = ' ' :: r ∧ c2.pastEnd = false
-
-/-- the identifier in double quotes (the renderer's spelling) -/
-theorem spells_quoted (tn : Str) (h : NameOK tn) : Spells ('"' :: (tn ++ ['"'])) tn := by
-  refine ⟨?_, ⟨'"', tn ++ ['"'], rfl, by decide⟩, ?_⟩
-  · intro c hc
-    simp only [List.mem_cons, List.mem_append, List.mem_nil_iff, or_false] at hc
-    rcases hc with rfl | hc | rfl
-    · decide
-    · exact (h c hc).2.2.2
-    · decide
-  · intro c1 r hr hp
-    exact name_quoted_ok c1 tn (' ' :: r) (by rw [hr]; simp) h hp
-
-/-- the identifier written bare: possible when it consists of name characters only -/
-theorem spells_bare (tn : Str) (hne : tn ≠ []) (hall : tn.all isNameChar = true) : Spells tn tn := by
-  obtain ⟨x, xr, rfl⟩ : ∃ x xr, tn = x :: xr := by
-    cases tn with
-    | nil => exact absurd rfl hne
-    | cons a as => exact ⟨a, as, rfl⟩
-  have hx : isNameChar x = true := by simp only [List.all_cons, Bool.and_eq_true] at hall; exact hall.1
-  refine ⟨?_, ⟨x, xr, rfl, (nameChar_facts x hx).1⟩, ?_⟩
-  · intro c hc
-    exact nameChar_not_tab c (by simp only [List.all_eq_true] at hall; exact hall c hc)
-  · intro c1 r hr hp
-    exact name_ok c1 (x :: xr) (' ' :: r) hr (by simp) hall (by intro y hy; simp at hy; subst hy; decide) hp
-
 /-- a table with its keyword spelt `kw` and its name spelt `nm` -/
 def ColForm.tableTextK (F : ColForm σ) (kw nm : Str) (cs : List σ) (nt : Str) (post : Str) : Str :=
   kw ++ ' ' :: (nm ++ ' ' :: '{' :: '\n' :: (F.text cs ++ (noteBlock nt ++ '}' :: post)))
@@ -103,7 +72,7 @@ theorem ColForm.tableRule_okK (F : ColForm σ) (props : Bool) (c c0 : Cur) (kw n
     ∃ c9, tableRule props c = .ok (F.tableBpC tn cs nt (joinBefore bs)) c9 ∧ Q c9 := by
   have hE := endOK_note nt post
   obtain ⟨hlen, hswc, _, k0, ks, rfl, hk1, _, _, _⟩ := kwFacts_elim kw hkw
-  obtain ⟨_, ⟨n0, ns, hn0, hn0w⟩, hname⟩ := hnm
+  obtain ⟨_, ⟨n0, ns, hn0, hn0w, _, _⟩, hname⟩ := hnm
   have hc' : c0.rest = (k0 :: ks) ++ (' ' :: (nm ++ ' ' :: '{' :: '\n' :: (F.text cs ++ (noteBlock nt ++ '}' :: post)))) := hc
   have hN : (skipWs c0).rest = (k0 :: ks) ++ (' ' :: (nm ++ ' ' :: '{' :: '\n' :: (F.text cs ++ (noteBlock nt ++ '}' :: post)))) :=
     skipWs_rest_head c0 k0 _ hc' hk1
@@ -323,30 +292,76 @@ theorem kwFactsE_elim (kw : Str) (h : KwFactsE kw = true) :
     obtain ⟨⟨⟨h1, h2⟩, h3⟩, ⟨⟨⟨⟨⟨h4, h5⟩, h6⟩, h7⟩, h8⟩, h9⟩⟩ := h
     exact ⟨h1, h2, h3, k, ks, rfl, h4, h5, h6, h7, by simpa using h8, by simpa using h9⟩
 
-def enumTextK (kw en : Str) (is : List (Str × Str)) : Str :=
-  kw ++ ' ' :: '"' :: (en ++ '"' :: ' ' :: '{' :: (itemsTextN is ++ ['\n', '}']))
+/-- `nm` is a spelling of the enum name `en` (schema public): followed by ` {`, the enum-name rule reads `en` from it -/
+def SpellsE (nm en : Str) : Prop :=
+  (∀ c ∈ nm, c ≠ '\t') ∧ (∃ x xr, nm = x :: xr ∧ isWs x = false) ∧
+    ∀ (c1 : Cur) (r : Str), (skipWs c1).rest = nm ++ ' ' :: '{' :: r → c1.pastEnd = false →
+      ∃ c2, enumName c1 = .ok (none, en) c2 ∧ c2.rest = ' ' :: '{' :: r ∧ c2.pastEnd = false
 
-theorem enumTextK_Enum (en : Str) (is : List (Str × Str)) : enumTextK (lit "Enum") en is = enumTextN en is := by
+theorem spellsE_quoted (en : Str) (h : NameOK en) : SpellsE ('"' :: (en ++ ['"'])) en := by
+  refine ⟨?_, ⟨'"', en ++ ['"'], rfl, by decide⟩, ?_⟩
+  · intro c hc
+    simp only [List.mem_cons, List.mem_append, List.mem_nil_iff, or_false] at hc
+    rcases hc with rfl | hc | rfl
+    · decide
+    · exact (h c hc).2.2.2
+    · decide
+  · intro c1 r hr hp
+    exact enumName_ok c1 en (' ' :: '{' :: r) '{' r (by rw [hr]; simp) rfl (by decide) h hp
+
+/-- the enum name written bare -/
+theorem spellsE_bare (en : Str) (hne : en ≠ []) (hall : en.all isNameChar = true) : SpellsE en en := by
+  obtain ⟨x, xr, rfl⟩ : ∃ x xr, en = x :: xr := by
+    cases en with
+    | nil => exact absurd rfl hne
+    | cons a as => exact ⟨a, as, rfl⟩
+  have hx : isNameChar x = true := by simp only [List.all_cons, Bool.and_eq_true] at hall; exact hall.1
+  have hxw := (nameChar_facts x hx).1
+  refine ⟨?_, ⟨x, xr, rfl, hxw⟩, ?_⟩
+  · intro c hc
+    exact nameChar_not_tab c (by simp only [List.all_eq_true] at hall; exact hall c hc)
+  · intro c1 r hr hp
+    have hstop : ∀ y, (' ' :: '{' :: r).head? = some y → isNameChar y = false := by
+      intro y hy; simp at hy; subst hy; decide
+    obtain ⟨c2, hnm, hr2, hp2⟩ := name_ok c1 (x :: xr) (' ' :: '{' :: r) hr (by simp) hall hstop hp
+    have hsk : (skipWs (skipWs c1)).rest = (x :: xr) ++ ' ' :: '{' :: r := by rw [skipWs_idem]; exact hr
+    obtain ⟨c2', hnm', hr2', hp2'⟩ := name_ok (skipWs c1) (x :: xr) (' ' :: '{' :: r) hsk (by simp) hall hstop (by simpa using hp)
+    have hraw : nameRaw (skipWs c1) = .ok (x :: xr) c2' := by
+      unfold nameRaw
+      rw [hr]
+      simp only [List.cons_append, hxw, Bool.false_eq_true, ↓reduceIte]
+      exact hnm'
+    have hdot : litRaw ['.'] c2' = .fail := litRaw_fail _ c2' (by rw [hr2']; simp [startsWith])
+    refine ⟨c2, ?_, hr2, hp2⟩
+    unfold enumName alt
+    simp only [bind, pbind, hraw, hdot, hnm, pure, ppure]
+
+def enumTextK (kw nm : Str) (is : List (Str × Str)) : Str :=
+  kw ++ ' ' :: (nm ++ ' ' :: '{' :: (itemsTextN is ++ ['\n', '}']))
+
+theorem enumTextK_Enum (en : Str) (is : List (Str × Str)) : enumTextK (lit "Enum") ('"' :: (en ++ ['"'])) is = enumTextN en is := by
   simp [enumTextK, enumTextN, lit]
 
 /-- the enum rule on an enum whose keyword is spelt in any case -/
-theorem enumRule_okK (c c0 : Cur) (kw en : Str) (is : List (Str × Str)) (post : Str) (Q : Cur → Prop)
-    (hkw : KwFactsE kw = true)
-    (hb : cBefore c = .ok [] c0) (hc : c0.rest = enumTextK kw en is ++ post) (hp : c0.pastEnd = false)
-    (hen : NameOK en) (his : ∀ it ∈ is, ItemOK it) (hne : is ≠ [])
+theorem enumRule_okK (c c0 : Cur) (kw nm en : Str) (is : List (Str × Str)) (post : Str) (Q : Cur → Prop)
+    (hkw : KwFactsE kw = true) (hnm' : SpellsE nm en)
+    (hb : cBefore c = .ok [] c0) (hc : c0.rest = enumTextK kw nm is ++ post) (hp : c0.pastEnd = false)
+    (his : ∀ it ∈ is, ItemOK it) (hne : is ≠ [])
     (hend : ∀ c7 : Cur, c7.rest = post → c7.pastEnd = false → ∃ c9, endRule c7 = .ok () c9 ∧ Q c9) :
     ∃ c9, enumRule c = .ok (enumBpN en is) c9 ∧ Q c9 := by
   obtain ⟨hlen, hswc, _, k0, ks, rfl, hk1, _, _, _, _, _⟩ := kwFactsE_elim kw hkw
-  have hc' : c0.rest = (k0 :: ks) ++ (' ' :: '"' :: (en ++ '"' :: ' ' :: '{' :: (itemsTextN is ++ '\n' :: '}' :: post))) := by
+  obtain ⟨_, ⟨n0, nr, hn0, hn0w⟩, hname⟩ := hnm'
+  have hc' : c0.rest = (k0 :: ks) ++ (' ' :: (nm ++ ' ' :: '{' :: (itemsTextN is ++ '\n' :: '}' :: post))) := by
     rw [hc]; simp [enumTextK]
-  have hN : (skipWs c0).rest = (k0 :: ks) ++ (' ' :: '"' :: (en ++ '"' :: ' ' :: '{' :: (itemsTextN is ++ '\n' :: '}' :: post))) :=
+  have hN : (skipWs c0).rest = (k0 :: ks) ++ (' ' :: (nm ++ ' ' :: '{' :: (itemsTextN is ++ '\n' :: '}' :: post))) :=
     skipWs_rest_head c0 k0 _ hc' hk1
   obtain ⟨c1, hk, hr1, hp1⟩ := clit_ok "enum" c0 (k0 :: ks)
-    (' ' :: '"' :: (en ++ '"' :: ' ' :: '{' :: (itemsTextN is ++ '\n' :: '}' :: post))) hN (by simpa using hlen)
+    (' ' :: (nm ++ ' ' :: '{' :: (itemsTextN is ++ '\n' :: '}' :: post))) hN (by simpa using hlen)
     (startsWithCaseless_append _ _ _ hswc) hp
-  have hN1 : (skipWs c1).rest = '"' :: (en ++ '"' :: (' ' :: '{' :: (itemsTextN is ++ '\n' :: '}' :: post))) :=
-    skipWs_rest_spaces c1 1 '"' _ (by rw [hr1]; rfl) (by decide)
-  obtain ⟨c2, hnm, hr2, hp2⟩ := enumName_ok c1 en _ '{' _ hN1 rfl (by decide) hen hp1
+  have hN1 : (skipWs c1).rest = nm ++ ' ' :: '{' :: (itemsTextN is ++ '\n' :: '}' :: post) := by
+    rw [hn0]
+    exact skipWs_rest_spaces c1 1 n0 _ (by rw [hr1, hn0]; rfl) hn0w
+  obtain ⟨c2, hnm, hr2, hp2⟩ := hname c1 _ hN1 hp1
   have hN2 : Next c2 '{' (itemsTextN is ++ '\n' :: '}' :: post) := skipWs_rest_spaces c2 1 '{' _ (by rw [hr2]; rfl) (by decide)
   obtain ⟨q3, q4⟩ := quiet_of_next c2 '{' _ hN2 (by decide) (by decide)
   have hs2 : skipNl c2 = .ok () c2 := skipNl_stay c2 q3 q4
@@ -375,10 +390,10 @@ theorem enumRule_okK (c c0 : Cur) (kw en : Str) (is : List (Str × Str)) (post :
   rfl
 
 /-- an enum whose keyword is spelt `kw` -/
-def enumEK (ap : Bool) (e : ESpecN) (kw : Str) (hkw : KwFactsE kw = true) (he : ESpecNOK e) : EForm ap where
+def enumEK (ap : Bool) (e : ESpecN) (kw nm : Str) (hkw : KwFactsE kw = true) (hnm : SpellsE nm e.1) (he : ESpecNOK e) : EForm ap where
   pre := none
   head := kw.headD 'E'
-  body := kw.tail ++ ' ' :: '"' :: (e.1 ++ '"' :: ' ' :: '{' :: (itemsTextN e.2 ++ ['\n', '}']))
+  body := kw.tail ++ ' ' :: (nm ++ ' ' :: '{' :: (itemsTextN e.2 ++ ['\n', '}']))
   elem := mkEnumElemN e
   headOK := by
     obtain ⟨_, _, _, k, ks, rfl, h1, h2, h3, _⟩ := kwFactsE_elim kw hkw
@@ -390,37 +405,37 @@ def enumEK (ap : Bool) (e : ESpecN) (kw : Str) (hkw : KwFactsE kw = true) (he : 
   noTab := by
     obtain ⟨_, _, h0, k, ks, rfl, _⟩ := kwFactsE_elim kw hkw
     intro c hc
-    have e1 : (k :: ks).headD 'E' :: ((k :: ks).tail ++ ' ' :: '"' :: (e.1 ++ '"' :: ' ' :: '{' :: (itemsTextN e.2 ++ ['\n', '}'])))
-        = (k :: ks) ++ [' ', '"'] ++ e.1 ++ ['"', ' ', '{'] ++ itemsTextN e.2 ++ ['\n', '}'] := by simp
+    have e1 : (k :: ks).headD 'E' :: ((k :: ks).tail ++ ' ' :: (nm ++ ' ' :: '{' :: (itemsTextN e.2 ++ ['\n', '}'])))
+        = (k :: ks) ++ [' '] ++ nm ++ [' ', '{'] ++ itemsTextN e.2 ++ ['\n', '}'] := by simp
     rw [e1] at hc
     simp only [List.mem_append] at hc
     rcases hc with ((((h | h) | h) | h) | h) | h
     · exact h0 c h
-    · exact (by decide : ∀ c ∈ [' ', '"'], c ≠ '\t') c h
-    · exact (he.1 c h).2.2.2
-    · exact (by decide : ∀ c ∈ ['"', ' ', '{'], c ≠ '\t') c h
+    · exact (by decide : ∀ c ∈ [' '], c ≠ '\t') c h
+    · exact hnm.1 c h
+    · exact (by decide : ∀ c ∈ [' ', '{'], c ≠ '\t') c h
     · exact itemsTextN_no_tab e.2 he.2.1 c h
     · exact (by decide : ∀ c ∈ ['\n', '}'], c ≠ '\t') c h
   parse := by
     intro c c0 post hb hr0 hp0 _ hends
     obtain ⟨_, _, _, k, ks, rfl, hk1, _, _, _, hkt, hkr⟩ := kwFactsE_elim kw hkw
-    have hr0' : c0.rest = enumTextK (k :: ks) e.1 e.2 ++ post := by rw [hr0]; simp [enumTextK]
+    have hr0' : c0.rest = enumTextK (k :: ks) nm e.2 ++ post := by rw [hr0]; simp [enumTextK]
     have hN0 : Next c0 k _ := skipWs_rest_head c0 k _ (by rw [hr0]; rfl) hk1
     have htab : tableRule ap c = .fail :=
       tableRule_fail' ap c c0 [] hb (ckw_fail _ c0 _ _ hN0 (by simp [startsWithCaseless, hkt]))
     have href : refRule c = .fail :=
       refRule_fail' c c0 [] hb (clit_fail _ c0 _ _ hN0 (by simp [startsWithCaseless, hkr]))
-    obtain ⟨c9, hrule, hQ⟩ := enumRule_okK c c0 (k :: ks) e.1 e.2 post (After post) hkw hb hr0' hp0 he.1 he.2.1 he.2.2
+    obtain ⟨c9, hrule, hQ⟩ := enumRule_okK c c0 (k :: ks) nm e.1 e.2 post (After post) hkw hnm hb hr0' hp0 he.2.1 he.2.2
       (fun c7 hr7 hp7 => endRule_afterE c7 post hends hr7 hp7)
     refine ⟨c9, ?_, hQ⟩
     unfold element alt mkEnumElemN
     simp only [bind, pbind, htab, href, hrule, pure, ppure]
 
-theorem enumEK_elem (ap : Bool) (e : ESpecN) (kw : Str) (hkw : KwFactsE kw = true) (he : ESpecNOK e) :
-    (enumEK ap e kw hkw he).elem = (enumEN ap e he).elem := rfl
+theorem enumEK_elem (ap : Bool) (e : ESpecN) (kw nm : Str) (hkw : KwFactsE kw = true) (hnm : SpellsE nm e.1) (he : ESpecNOK e) :
+    (enumEK ap e kw nm hkw hnm he).elem = (enumEN ap e he).elem := rfl
 
-theorem enumEK_text (ap : Bool) (e : ESpecN) (kw : Str) (hkw : KwFactsE kw = true) (he : ESpecNOK e) :
-    (enumEK ap e kw hkw he).text = enumTextK kw e.1 e.2 := by
+theorem enumEK_text (ap : Bool) (e : ESpecN) (kw nm : Str) (hkw : KwFactsE kw = true) (hnm : SpellsE nm e.1) (he : ESpecNOK e) :
+    (enumEK ap e kw nm hkw hnm he).text = enumTextK kw nm e.2 := by
   obtain ⟨_, _, _, k, ks, rfl, _⟩ := kwFactsE_elim kw hkw
   simp [EForm.text, enumEK, commentText, enumTextK]
 
@@ -507,11 +522,11 @@ theorem refEK_elem (ap : Bool) (r : RText) (kw : Str) (hkw : KwFactsG (lit "ref"
     (refEK ap r kw hkw hok).elem = (refE ap r hok).elem := rfl
 
 /-- the project with its keyword spelt `kw` -/
-def projectEK (ap : Bool) (n : Str) (items : List (Str × Str)) (kw : Str)
-    (hkw : KwFactsG (lit "project") ['t', 'r', 'e'] kw = true) (h : ProjectOK n items) : EForm ap where
+def projectEK (ap : Bool) (n : Str) (items : List (Str × Str)) (kw nm : Str)
+    (hkw : KwFactsG (lit "project") ['t', 'r', 'e'] kw = true) (hnm : Spells nm n) (h : ProjectOK n items) : EForm ap where
   pre := none
   head := kw.headD 'P'
-  body := kw.tail ++ ' ' :: '"' :: (n ++ '"' :: ' ' :: '{' :: '\n' :: (fieldLines items ++ ['}']))
+  body := kw.tail ++ ' ' :: (nm ++ ' ' :: '{' :: '\n' :: (fieldLines items ++ ['}']))
   elem := Bp.Elem.project (projectBpOf n items)
   headOK := by
     obtain ⟨_, _, _, k, ks, rfl, h1, h2, h3, _⟩ := kwFactsG_elim _ _ kw hkw
@@ -523,21 +538,21 @@ def projectEK (ap : Bool) (n : Str) (items : List (Str × Str)) (kw : Str)
   noTab := by
     obtain ⟨_, _, h0, k, ks, rfl, _⟩ := kwFactsG_elim _ _ kw hkw
     intro c hc
-    have e : (k :: ks).headD 'P' :: ((k :: ks).tail ++ ' ' :: '"' :: (n ++ '"' :: ' ' :: '{' :: '\n' :: (fieldLines items ++ ['}'])))
-        = (k :: ks) ++ [' ', '"'] ++ n ++ ['"', ' ', '{', '\n'] ++ fieldLines items ++ ['}'] := by simp
+    have e : (k :: ks).headD 'P' :: ((k :: ks).tail ++ ' ' :: (nm ++ ' ' :: '{' :: '\n' :: (fieldLines items ++ ['}'])))
+        = (k :: ks) ++ [' '] ++ nm ++ [' ', '{', '\n'] ++ fieldLines items ++ ['}'] := by simp
     rw [e] at hc
     simp only [List.mem_append] at hc
     rcases hc with ((((h' | h') | h') | h') | h') | h'
     · exact h0 c h'
-    · exact (by decide : ∀ c ∈ [' ', '"'], c ≠ '\t') c h'
-    · exact (h.name c h').2.2.2
-    · exact (by decide : ∀ c ∈ ['"', ' ', '{', '\n'], c ≠ '\t') c h'
+    · exact (by decide : ∀ c ∈ [' '], c ≠ '\t') c h'
+    · exact hnm.1 c h'
+    · exact (by decide : ∀ c ∈ [' ', '{', '\n'], c ≠ '\t') c h'
     · exact fieldLines_no_tab items h.keys h.values c h'
     · exact (by decide : ∀ c ∈ ['}'], c ≠ '\t') c h'
   parse := by
     intro c c0 post hb hr0 hp0 _ hends
     obtain ⟨hlen, hswc, _, k, ks, rfl, hk1, _, _, _, hoth⟩ := kwFactsG_elim _ _ kw hkw
-    have hr0' : c0.rest = (k :: ks) ++ (' ' :: '"' :: (n ++ '"' :: ' ' :: '{' :: '\n' :: (fieldLines items ++ '}' :: post))) := by
+    have hr0' : c0.rest = (k :: ks) ++ (' ' :: (nm ++ ' ' :: '{' :: '\n' :: (fieldLines items ++ '}' :: post))) := by
       rw [hr0]; simp
     have hN0 : Next c0 k _ := skipWs_rest_head c0 k _ (by rw [hr0']; rfl) hk1
     have htab : tableRule ap c = .fail :=
@@ -551,15 +566,15 @@ def projectEK (ap : Bool) (n : Str) (items : List (Str × Str)) (kw : Str)
         have := hoth 't' (by simp); simpa [pyUpper1, asciiUpper] using this)))
     obtain ⟨c1, hk, hr1, hp1⟩ := clit_ok "project" c0 (k :: ks) _
       (skipWs_rest_head c0 k _ (by rw [hr0']; rfl) hk1) (by rw [hlen]; rfl) (startsWithCaseless_append _ _ _ hswc) hp0
-    obtain ⟨c9, hrule, hQ⟩ := projectRule_from c c0 c1 n items post (After post) hb hk hr1 hp1 h.name h.keys h.values h.distinct
+    obtain ⟨c9, hrule, hQ⟩ := projectRule_from c c0 c1 nm n items post (After post) hb hk hr1 hp1 hnm h.keys h.values h.distinct
       (fun c7 hr7 hp7 => refEnd_afterE c7 post hends hr7 hp7)
     refine ⟨c9, ?_, hQ⟩
     unfold element alt
     simp only [bind, pbind, htab, href, henum, hgrp, hrule, pure, ppure]
 
-theorem projectEK_elem (ap : Bool) (n : Str) (items : List (Str × Str)) (kw : Str)
-    (hkw : KwFactsG (lit "project") ['t', 'r', 'e'] kw = true) (h : ProjectOK n items) :
-    (projectEK ap n items kw hkw h).elem = (projectE ap n items h).elem := rfl
+theorem projectEK_elem (ap : Bool) (n : Str) (items : List (Str × Str)) (kw nm : Str)
+    (hkw : KwFactsG (lit "project") ['t', 'r', 'e'] kw = true) (hnm : Spells nm n) (h : ProjectOK n items) :
+    (projectEK ap n items kw nm hkw hnm h).elem = (projectE ap n items h).elem := rfl
 
 /-- a sticky note with its keyword spelt `kw` -/
 def stickyEK (ap : Bool) (s : Sticky) (kw : Str) (hkw : KwFactsG (lit "note") ['t', 'r', 'e', 'p'] kw = true) (hs : StickyOK s) :
@@ -646,12 +661,12 @@ theorem ckw_table_fail_kwIdent (c0 : Cur) (a b c d e g : Char) (r : Str)
   simp [hg]
 
 /-- a table group with its keyword spelt `kw` -/
-def groupEK (ap : Bool) (g : Str) (ns : List Str) (kw : Str)
-    (hkw : (KwFactsG (lit "TableGroup") ['r', 'e'] kw && KwGroupShape kw) = true) (hg : NameOK g) (hns : ∀ n ∈ ns, NameOK n) :
-    EForm ap where
+def groupEK (ap : Bool) (g : Str) (ns : List Str) (kw nm : Str)
+    (hkw : (KwFactsG (lit "TableGroup") ['r', 'e'] kw && KwGroupShape kw) = true) (hnm : Spells nm g) (hg : NameOK g)
+    (hns : ∀ n ∈ ns, NameOK n) : EForm ap where
   pre := none
   head := kw.headD 'T'
-  body := kw.tail ++ ' ' :: '"' :: (g ++ '"' :: ' ' :: '{' :: '\n' :: (memberLines ns ++ ['}']))
+  body := kw.tail ++ ' ' :: (nm ++ ' ' :: '{' :: '\n' :: (memberLines ns ++ ['}']))
   elem := Bp.Elem.group (groupBpOf g ns)
   headOK := by
     obtain ⟨_, _, _, k, ks, rfl, h1, h2, h3, _⟩ := kwFactsG_elim _ _ kw (by simp only [Bool.and_eq_true] at hkw; exact hkw.1)
@@ -663,21 +678,25 @@ def groupEK (ap : Bool) (g : Str) (ns : List Str) (kw : Str)
   noTab := by
     obtain ⟨_, _, h0, k, ks, rfl, _⟩ := kwFactsG_elim _ _ kw (by simp only [Bool.and_eq_true] at hkw; exact hkw.1)
     intro c hc
-    simp only [List.headD_cons, List.tail_cons, List.mem_cons, List.mem_append] at hc
-    rcases hc with rfl | hc | hc
-    · exact h0 _ (by simp)
-    · exact h0 _ (by simp [hc])
+    have e : (k :: ks).headD 'T' :: ((k :: ks).tail ++ ' ' :: (nm ++ ' ' :: '{' :: '\n' :: (memberLines ns ++ ['}'])))
+        = (k :: ks) ++ [' '] ++ nm ++ [' ', '{', '\n'] ++ memberLines ns ++ ['}'] := by simp
+    rw [e] at hc
+    simp only [List.mem_append] at hc
+    rcases hc with ((((h' | h') | h') | h') | h') | h'
+    · exact h0 c h'
+    · exact (by decide : ∀ c ∈ [' '], c ≠ '\t') c h'
+    · exact hnm.1 c h'
+    · exact (by decide : ∀ c ∈ [' ', '{', '\n'], c ≠ '\t') c h'
     · apply (groupE ap g ns hg hns).noTab c
       show c ∈ 'T' :: (groupText g ns).tail
-      simp only [groupText, List.tail_cons, List.mem_cons]
-      right; right; right; right; right; right; right; right; right; right
-      simpa using hc
+      simp [groupText, h']
+    · exact (by decide : ∀ c ∈ ['}'], c ≠ '\t') c h'
   parse := by
     intro c c0 post hb hr0 hp0 _ hends
     have hkw1 : KwFactsG (lit "TableGroup") ['r', 'e'] kw = true := by simp only [Bool.and_eq_true] at hkw; exact hkw.1
     have hkw2 : KwGroupShape kw = true := by simp only [Bool.and_eq_true] at hkw; exact hkw.2
     obtain ⟨hlen, hswc, _, k, ks, rfl, hk1, _, _, _, hoth⟩ := kwFactsG_elim _ _ kw hkw1
-    have hr0' : c0.rest = (k :: ks) ++ (' ' :: '"' :: (g ++ '"' :: ' ' :: '{' :: '\n' :: (memberLines ns ++ '}' :: post))) := by
+    have hr0' : c0.rest = (k :: ks) ++ (' ' :: (nm ++ ' ' :: '{' :: '\n' :: (memberLines ns ++ '}' :: post))) := by
       rw [hr0]; simp
     have hN0 : Next c0 k _ := skipWs_rest_head c0 k _ (by rw [hr0']; rfl) hk1
     have htab : tableRule ap c = .fail := by
@@ -694,30 +713,31 @@ def groupEK (ap : Bool) (g : Str) (ns : List Str) (kw : Str)
       enumRule_fail' c c0 [] hb (clit_fail _ c0 _ _ hN0 (swc_head_false k _ "enum" 'e' _ rfl (hoth 'e' (by simp))))
     obtain ⟨c1, hk, hr1, hp1⟩ := clit_ok "TableGroup" c0 (k :: ks) _
       (skipWs_rest_head c0 k _ (by rw [hr0']; rfl) hk1) (by rw [hlen]; rfl) (startsWithCaseless_append _ _ _ hswc) hp0
-    obtain ⟨c9, hrule, hQ⟩ := tableGroupRule_from c c0 c1 g ns post (After post) hb hk hr1 hp1 hg hns
+    obtain ⟨c9, hrule, hQ⟩ := tableGroupRule_from c c0 c1 nm g ns post (After post) hb hk hr1 hp1 hnm hns
       (fun c7 hr7 hp7 => endRule_afterE c7 post hends hr7 hp7)
     refine ⟨c9, ?_, hQ⟩
     unfold element alt
     simp only [bind, pbind, htab, href, henum, hrule, pure, ppure]
 
-theorem groupEK_elem (ap : Bool) (g : Str) (ns : List Str) (kw : Str)
-    (hkw : (KwFactsG (lit "TableGroup") ['r', 'e'] kw && KwGroupShape kw) = true) (hg : NameOK g) (hns : ∀ n ∈ ns, NameOK n) :
-    (groupEK ap g ns kw hkw hg hns).elem = (groupE ap g ns hg hns).elem := rfl
+theorem groupEK_elem (ap : Bool) (g : Str) (ns : List Str) (kw nm : Str)
+    (hkw : (KwFactsG (lit "TableGroup") ['r', 'e'] kw && KwGroupShape kw) = true) (hnm : Spells nm g) (hg : NameOK g)
+    (hns : ∀ n ∈ ns, NameOK n) : (groupEK ap g ns kw nm hkw hnm hg hns).elem = (groupE ap g ns hg hns).elem := rfl
 
 example : lit "TABLEGROUP" ∈ kwGroup ∧ lit "tablegroup" ∈ kwGroup ∧ kwGroup.length = 1024 := by decide +kernel
 
 example : lit "REF" ∈ kwRef ∧ lit "project" ∈ kwProject ∧ lit "NOTE" ∈ kwNote := by decide +kernel
 
 /-- **keyword case of `Enum` and `Table` and the spelling of table names are inert**: the enums and tables of a covered
-    document, each enum written with its own spelling `p.2` of its keyword, each table with its own spelling `p.2.1` of its
+    document, each enum written with its own spelling `p.2.1` of its keyword and `p.2.2` of its name, each table with its own spelling `p.2.1` of its
     keyword and `p.2.2` of its name, under any spacing, are parsed to the database the document declares. -/
-theorem enums_tables_spelling_inert (F : ColForm σ) (ap : Bool) (es : List (ESpecN × Str)) (ps : List (FTab σ × Str × Str))
+theorem enums_tables_spelling_inert (F : ColForm σ) (ap : Bool) (es : List (ESpecN × Str × Str)) (ps : List (FTab σ × Str × Str))
     (h : DocOK F ap { enums := es.map (·.1), tables := ps.map (·.1) })
-    (hke : ∀ p ∈ es, p.2 ∈ kwEnum) (hkw : ∀ p ∈ ps, p.2.1 ∈ kwTable) (hnm : ∀ p ∈ ps, Spells p.2.2 p.1.name)
+    (hke : ∀ p ∈ es, p.2.1 ∈ kwEnum) (hne : ∀ p ∈ es, SpellsE p.2.2 p.1.1) (hkw : ∀ p ∈ ps, p.2.1 ∈ kwTable) (hnm : ∀ p ∈ ps, Spells p.2.2 p.1.name)
     (gaps : List Nat) (m : Nat) (e' : EForm ap) (r' : List (EForm ap))
     (hforms : e' :: r' =
-      es.pmap (fun p (hp : ESpecNOK p.1 ∧ p.2 ∈ kwEnum) => enumEK ap p.1 p.2 (kwEnum_facts p.2 hp.2) hp.1)
-        (fun p hp => ⟨h.enums p.1 (List.mem_map_of_mem hp), hke p hp⟩)
+      es.pmap (fun p (hp : ESpecNOK p.1 ∧ p.2.1 ∈ kwEnum ∧ SpellsE p.2.2 p.1.1) =>
+          enumEK ap p.1 p.2.1 p.2.2 (kwEnum_facts p.2.1 hp.2.1) hp.2.2 hp.1)
+        (fun p hp => ⟨h.enums p.1 (List.mem_map_of_mem hp), hke p hp, hne p hp⟩)
       ++ ps.pmap (fun p (hp : F.specOK ap p.1 ∧ p.2.1 ∈ kwTable ∧ Spells p.2.2 p.1.name) =>
         F.tableEK ap p.1 p.2.1 p.2.2 (kwTable_facts p.2.1 hp.2.1) hp.2.2 hp.1)
         (fun p hp => ⟨h.tables p.1 (List.mem_map_of_mem hp), hkw p hp, hnm p hp⟩)) :
